@@ -138,7 +138,7 @@ pub fn main(tier: Tier, _replay: Option<String>) -> i32 {
             let merged = lite.transactions.iter().any(|t| t.transaction_type == TransactionType::SPV && t.txs_replacements > 1);
             let odd = if merged { "merged-placeholders" } else { "unmerged" };
             if root_before != Some(full.merkle_root) {
-                r.violate(&if omitted { format!("commitment-not-recomputable/{}/in-memory", odd) } else { "commitment-not-recomputable/nothing-omitted/in-memory".to_string() }, format!("n={} {} ({}): merkle root over the lite block's transactions differs from the header's", n, label, cls), ctx.clone());
+                r.violate_inst(&if omitted { format!("commitment-not-recomputable/{}/in-memory", odd) } else { "commitment-not-recomputable/nothing-omitted/in-memory".to_string() }, &format!("mem|{}", ctx), format!("n={} {} ({}): merkle root over the lite block's transactions differs from the header's", n, label, cls), ctx.clone());
             }
             // (c) wire round trip
             let wire = lite.serialize_for_net(BlockType::Full);
@@ -153,7 +153,7 @@ pub fn main(tier: Tier, _replay: Option<String>) -> i32 {
                     }
                     let root_after = MerkleTree::generate(&d.transactions).map(|t| t.get_root_hash());
                     if root_after != Some(full.merkle_root) {
-                        r.violate(&if omitted { format!("commitment-not-recomputable/{}/after-wire", odd) } else { "commitment-not-recomputable/nothing-omitted/after-wire".to_string() }, format!("n={} {} ({}): merkle root recomputed from the received lite block differs from the header's", n, label, cls), ctx.clone());
+                        r.violate_inst(&if omitted { format!("commitment-not-recomputable/{}/after-wire", odd) } else { "commitment-not-recomputable/nothing-omitted/after-wire".to_string() }, &format!("wire|{}", ctx), format!("n={} {} ({}): merkle root recomputed from the received lite block differs from the header's", n, label, cls), ctx.clone());
                     }
                     for t in full.transactions.iter() {
                         let touches = t.from.iter().any(|s| kl.contains(&s.public_key)) || t.to.iter().any(|s| kl.contains(&s.public_key));
